@@ -7,7 +7,7 @@
                            evaluation of the resulting (quote X): the value X in write form
    Lines: OK <text>, ERR parse, ERR def, ERR use, PANIC, NOFUEL (stands for a hang).   *)
 From Coq Require Import String.
-From MW Require Import Model.Base Model.Datum Model.Lex Model.Parse Model.TransformDef Model.Transform.
+From MW Require Import Model.Base Model.Datum Model.Lex Model.Parse Model.TransformDef Model.Transform Model.SRSpec.
 Open Scope N_scope.
 
 Fixpoint split_at (n : N) (fuel : nat) (l : list N) (acc : list N) : option (list N * list N) :=
@@ -68,6 +68,20 @@ Definition mac_eval (d u : cell) : list N :=
   | NoFuel => S_ "NOFUEL"
   end.
 
+(* interface 52 (model only): the SPECIFICATION's answer for the same case, used to
+   cross-check Model/SRSpec.v against the independent Python oracle *)
+Definition mac_spec (d u : cell) : list N :=
+  match transform_try_new d with
+  | Ok tr =>
+      match spec_of_transform tr u with
+      | SpecOk c => S_ "SPEC OK " ++ esc_text (write c)
+      | SpecNoMatch => S_ "SPEC NOMATCH"
+      | SpecInvalid => S_ "SPEC INVALID"
+      | SpecExcluded => S_ "SPEC EXCLUDED"
+      end
+  | _ => S_ "SPEC DEFERR"
+  end.
+
 Definition run_mac (c : list N) : list N :=
   match c with
   | id :: n :: rest =>
@@ -77,6 +91,7 @@ Definition run_mac (c : list N) : list N :=
           | Some d, Some u =>
               if id =? 50 then mac_direct d u
               else if id =? 51 then mac_eval d u
+              else if id =? 52 then mac_spec d u
               else S_ "BADCASE"
           | _, _ => if (id =? 50) || (id =? 51) then S_ "ERR parse" else S_ "BADCASE"
           end
